@@ -309,6 +309,7 @@ func runOne(prop, tier, repo, verif string, cfg Config, f propFn) (r *Report, co
 		}
 	}()
 	f(p, r)
+	r.Explain += explainMore[prop]
 	r.Seal()
 	if r.newViolations() > 0 && !*noInline {
 		if r2 := runInlined(prop, tier, repo, verif, cfg, f, p, r); r2 != nil {
